@@ -439,6 +439,7 @@ def run(ctx):
     # (rule shared with C08 D1)
     importlib.import_module("rules.c08").d1(db, rep, "D11-ALLOCATOR-LOCKED")
     d12_borrowed_names(db, rep)
+    d13_setter_alias(db, rep, funcs)
 
     if n6 < 6:
         raise AnalysisBroken("only %d free-then-null instances found" % n6)
@@ -500,4 +501,70 @@ def d12_borrowed_names(db, rep, rule="D12-BORROWED-NAMES"):
                       "which frees it again in orc_program_free and reads it in every lookup by name" % (f.name, unparse(idx)[:60], c.line), line=c.line)
     if n < 2:
         raise AnalysisBroken("only %d frees of compiler variable names found" % n)
+    return n
+
+
+def d13_setter_alias(db, rep, funcs, rule="D13-SETTER-ALIAS"):
+    """A setter that replaces an owned string must read its argument before it releases the old value: the getters hand out
+    the owned pointer itself (orc_program_get_name: "valid until the name is changed"; the records are public too), so
+    `set (p, get (p))` passes the very block the setter is about to free.  Instance: a `free (X->field)` (X a parameter, field
+    of character-pointer type) from which a read of ANOTHER pointer-to-char parameter is reachable.  Duplicating first and
+    releasing afterwards is the accepted form."""
+    n = 0
+    for f in funcs:
+        ptr = [p_["name"] for p_ in f.params if "*" in (p_.get("ty") or "")]
+        chp = [p_["name"] for p_ in f.params if (p_.get("ty") or "").replace("const ", "").replace(" ", "") == "char*"]
+        if not chp or len(ptr) < 2:
+            continue
+        assigned = set(access_path(e.c[0]) for e in f.walk() if e.k == "BinaryOperator" and e.op == "=")
+        for c in f.calls("free"):
+            a = strip_casts(c.args()[0]) if c.args() else None
+            if a is None or a.k != "MemberExpr" or "char" not in (a.ty or ""):
+                continue
+            lp = access_path(a) or ""
+            root = lp.split("->")[0].split(".")[0].split("[")[0]
+            if root not in ptr:
+                continue
+            pc = f.pos(c)
+            if pc is None:
+                continue
+            after = f.reachable_blocks(pc[0])
+            cyc = any(pc[0] in f.reachable_blocks(s_) for s_ in f.blocks[pc[0]].succs if s_ is not None)
+            for q in chp:
+                if q == root or q in assigned:
+                    continue
+                n += 1
+                rep.saw(f)
+                bad = None
+                # the other accepted form: the release is guarded by `arg != field` (or follows an early return on equality)
+                distinct = False
+                for cd in Facts(f).conds(c):
+                    if cd[0] == "switch":
+                        continue
+                    e, pol = strip_casts(cd[0]), cd[1]
+                    if e is not None and e.k == "BinaryOperator" and e.op in ("==", "!=") and \
+                            set((access_path(strip_casts(e.c[0])), access_path(strip_casts(e.c[1])))) == set((q, lp)) and (e.op == "!=") == bool(pol):
+                        distinct = True
+                for u in ([] if distinct else f.walk()):
+                    if u.k != "DeclRefExpr" or u.name != q:
+                        continue
+                    pu = f.pos(u)
+                    if pu is None:
+                        continue
+                    if (pu[0] == pc[0] and (pu[1] > pc[1] or cyc)) or (pu[0] != pc[0] and pu[0] in after):
+                        # a comparison against the field itself (if (name != p->name)) is the guard, not a read of the block
+                        par = u.parent
+                        while par is not None and par.k in ("ImplicitCastExpr", "ParenExpr", "CStyleCastExpr"):
+                            par = par.parent
+                        if par is not None and par.k == "BinaryOperator" and par.op in ("==", "!="):
+                            continue
+                        bad = u
+                        break
+                rep.check(bad is None, rule, where(f), "%s:%s<-%s" % (f.name, lp, q),
+                          "argument is read (duplicated) before the old value of the field is released",
+                          "%s frees %s (line %s) and reads its argument '%s' afterwards (line %s): the getter hands out the field's own "
+                          "pointer, so set (p, get (p)) duplicates a block that was just freed (use after free)"
+                          % (f.name, lp, c.line, q, bad.line if bad is not None else "?"), line=c.line)
+    if n < 2:
+        raise AnalysisBroken("only %d setters that free a string field and take a string argument found" % n)
     return n
